@@ -186,6 +186,8 @@ func makeAttributeQueryResponse(
 			for _, queriedAttr := range queriedAttrs {
 				if attrSaml.Name == queriedAttr.Name && attrSaml.NameFormat == queriedAttr.NameFormat {
 					providedAttrs = append(providedAttrs, attrSaml)
+					// an attribute requested more than once is still returned only once
+					break
 				}
 			}
 		}
